@@ -124,6 +124,8 @@ def run(ctx):
     it = Internal(ctx, crate, rec)
     if it.ok: drivers(ctx, crate, rec, it)
     custom(ctx, crate)
+    from rules.c16 import depth0_bound
+    depth0_bound(ctx, crate, clause="bounds")
     n = haversine.check_all(ctx, crate)
     ctx.floor("haversine-call-sites", n, 4)
     ctx.not_decided("the no-miss claim itself: that the start cells cover the cone, that the per-depth distance bounds are upper bounds, haversine rounding (float geometry)")
